@@ -23,7 +23,7 @@ var commonAssumptions = []string{
 func init() {
 	prop(&PropDef{
 		ID:          "C01",
-		Rules:       []string{"TXN-1", "TXN-2", "SHAPE-1", "TAB-2", "UPS-1", "EXT-1", "WIN-3", "WIN-4", "WIN-1", "OWN-5", "OWN-8", "ATOM-2", "MOD-1", "IDX-1", "ATOM-5", "ACC-1", "LOCK-4", "ATOM-6", "TXN-5", "NS-1", "OWN-2"},
+		Rules:       []string{"TXN-1", "TXN-2", "SHAPE-1", "TAB-2", "UPS-1", "EXT-1", "WIN-3", "WIN-4", "WIN-1", "OWN-5", "OWN-8", "ATOM-2", "MOD-1", "IDX-1", "ATOM-5", "ACC-1", "LOCK-4", "ATOM-6", "TXN-5", "NS-1", "OWN-2", "FLAG-4", "ARG-1"},
 		Explanation: "Structural necessary conditions of 'CRUD equals a sequential model', decided for every path/site of the resolved program: writes are never issued on an unlocked snapshot transaction (they would be silently discarded), every data access goes through a transaction that honours the session, the driver's counts and ids derive from the right engine result lists, every documented operator is wired, the upsert fallback fires exactly on 'nothing matched', and the find/update/delete window is sort -> filter(limit+skip) -> skip. Model equivalence itself (what each operator computes on each input) is a runtime relation and is NOT decided.",
 		Decided:     []string{"bsonkit.Set never moves a document to another position", "$in/$or upsert extraction only for a single alternative (len interval at each Put/Process site)", "lock flag vs. methods called at all 19 useTransaction sites", "no back door to Engine.catalog / NewTransaction", "provenance of MatchedCount/ModifiedCount/DeletedCount/Inserted*/Upserted*", "operator registries complete", "upsert condition is len(Matched)==0 && upsert", "window composition in Find/Replace/Update/Delete"},
 		NotDecided:  []string{"that each operator computes MongoDB's result on each input", "contents of collections after arbitrary histories", "error-or-success agreement with a reference model"},
@@ -87,7 +87,7 @@ func init() {
 	})
 	prop(&PropDef{
 		ID:          "C09",
-		Rules:       []string{"SIG-1", "SIG-2", "LOCK-1", "LOCK-2", "LOCK-3", "TAB-6", "PUB-1", "SEM-6", "WATCH-1", "LOG-3", "OWN-2", "WATCH-2", "SIG-3"},
+		Rules:       []string{"SIG-1", "SIG-2", "LOCK-1", "LOCK-2", "LOCK-3", "TAB-6", "PUB-1", "SEM-6", "WATCH-1", "LOG-3", "OWN-2", "WATCH-2", "SIG-3", "SIG-4"},
 		Explanation: "The wake-up and close protocol of change streams: buffered signal channel, all sends non-blocking and after publication, registration in the critical section that reads the start position, blocking wait on signal and ctx with the stream lock released, close(signal) only under Stream.mutex guarded by !closed after tomb.Kill outside Engine.mutex, every Stream path that sets closed also unregisters; no lock-order cycle and no blocking under locks among Engine/Stream; invalidate triggers read the event kinds that are written.",
 		Decided:     []string{"start-at position (nil for i==0, List[i-1] otherwise) and found condition Compare(startAt, clusterTime) <= 0", "no lost wake-up by construction (buffer + send-after-publish + register-with-position)", "no send on / double close of a closed channel", "no deadlock between stream and engine locks"},
 		NotDecided:  []string{"exactly-once, in-order delivery and resume positions over a history", "lost-position detection arithmetic", "timing"},
@@ -95,7 +95,7 @@ func init() {
 	})
 	prop(&PropDef{
 		ID:          "C10",
-		Rules:       []string{"TAB-2", "SEM-1", "SEM-4", "SEM-2", "SEM-9", "NUM-5", "FLAG-1", "FLAG-2", "REC-1", "SCH-1", "SEM-10", "NUM-6", "SEM-12", "SEM-13", "FLAG-3", "NUM-8"},
+		Rules:       []string{"TAB-2", "SEM-1", "SEM-4", "SEM-2", "SEM-9", "NUM-5", "FLAG-1", "FLAG-2", "REC-1", "SCH-1", "SEM-10", "NUM-6", "SEM-12", "SEM-13", "FLAG-3", "NUM-8", "FLAG-4"},
 		Explanation: "Wiring and finite-domain semantics of query operators: every operator is registered, multi-name functions dispatch on exactly the registered names; matchComp's truth table over (type bracketing flag x sign of Compare) is the MongoDB one for each label; $ne/$nin/$nor are matchNegate around the function registered for $eq/$in/$or with the same arguments, matchNegate is an exact negation, and the per-iteration outcome tables of matchAnd/matchOr/matchNot are conjunction/disjunction/negated conjunction. These hold for every document and filter. Path traversal, array fan-out and the element-wise operators ($all, $size, $elemMatch, $mod, $bits*, $type, $exists, $jsonSchema) are NOT decided (DESIGN section 8).",
 		Decided:     []string{"matchUnwind flags agree with $eq for every leaf operator ($all excepted)", "exact ranges for int64<->float64 conversions in comparisons", "no never-set flag in operator code", "registries and dispatch", "comparison truth table incl. bracketing (36 cases)", "negation structure and logical connective tables"},
 		NotDecided:  []string{"dotted-path traversal and array fan-out", "$all/$size/$elemMatch/$mod/$bits/$type/$exists/$jsonSchema semantics", "agreement with a reference evaluator"},
@@ -119,7 +119,7 @@ func init() {
 	})
 	prop(&PropDef{
 		ID:          "C13",
-		Rules:       []string{"WIN-1", "WIN-2", "WIN-3", "WIN-4", "WIN-5", "WIN-6", "NUM-1", "NUM-5", "WIN-7", "WIN-8", "SEM-7"},
+		Rules:       []string{"WIN-1", "WIN-2", "WIN-3", "WIN-4", "WIN-5", "WIN-6", "NUM-1", "NUM-5", "WIN-7", "WIN-8", "SEM-7", "ARG-1"},
 		Explanation: "Structural parts of sort/skip/limit: in-place sorts only ever permute lists made in the same function (a sorted find cannot reorder the collection), document sorts are stable, the window is composed as sort(full list) -> filter(limit+skip under limit>0) -> drop skip under a bounds guard in all four siblings, and no allocation is sized by the caller's limit. The ordering produced by sortKey/Order, window arithmetic on values and distinct de-duplication are NOT decided.",
 		Decided:     []string{"Set keeps insertion order", "sortKey operand and update table over all loop-body paths", "no shared list is sorted in place", "stable sorts", "window composition in Find/Replace/Update/Delete", "bounded preallocation"},
 		NotDecided:  []string{"the order relation itself (per-direction array keys, missing as null)", "distinct"},
@@ -127,7 +127,7 @@ func init() {
 	})
 	prop(&PropDef{
 		ID:          "C14",
-		Rules:       []string{"OWN-4p", "TAB-2", "NUM-2s", "PROJ-1", "PROJ-2", "PROJ-3", "PROJ-4", "FLAG-1", "ASSUME-1", "PROJ-5", "PROJ-6", "PROJ-7", "PROJ-8"},
+		Rules:       []string{"OWN-4p", "TAB-2", "NUM-2s", "PROJ-1", "PROJ-2", "PROJ-3", "PROJ-4", "FLAG-1", "ASSUME-1", "PROJ-5", "PROJ-6", "PROJ-7", "PROJ-8", "FLAG-4"},
 		Explanation: "The non-interference clause of projections - projecting never alters the stored document - decided by the sharing analysis: every in-place mutation reachable from mongokit.Project works on containers that are fresh (Project clones its input first, so nested inclusions and operator overlays cannot write through to the original); the projection operators are registered and assert the state type Project supplies; the integer arithmetic of $slice windows cannot overflow before it is clamped. Which fields an inclusion/exclusion returns is NOT decided.",
 		Decided:     []string{"projectCondition effect table over (inclusion flag, path == _id)", "Project/ProjectList never write into their input", "projection registry", "$slice bounds arithmetic"},
 		NotDecided:  []string{"which paths are returned", "$elemMatch selection", "values of the window"},
@@ -143,7 +143,7 @@ func init() {
 	})
 	prop(&PropDef{
 		ID:          "C16",
-		Rules:       []string{"LOCK-0", "LOCK-1", "LOCK-2", "LOCK-4", "LOCK-6", "LOCK-7", "LOCK-8", "LOCK-9", "LOCK-10", "LOCK-11", "SIG-2", "DUR-3", "LOCK-12", "ERR-1"},
+		Rules:       []string{"LOCK-0", "LOCK-1", "LOCK-2", "LOCK-4", "LOCK-6", "LOCK-7", "LOCK-8", "LOCK-9", "LOCK-10", "LOCK-11", "SIG-2", "DUR-3", "LOCK-12", "ERR-1", "SIG-4"},
 		Explanation: "Static lock/token discipline behind 'the engine never wedges', decided on every path of the resolved program: balanced locking, acyclic lock order over the VTA call graph, no blocking under engine/session/stream/transaction locks, token typestate (released exactly once on the paths that own it), release of every begun write transaction at each call site (deferred when callbacks run), liveness re-checks, the session state machine, shutdown unblocking token waiters and the expiry goroutine, and the close/send discipline of stream channels. It is a set of structural necessary conditions, not the behavioural property.",
 		Decided:     []string{"Semaphore.Acquire reports exactly the token state", "no lock-order cycle among the repo's mutexes", "token released exactly once per owning path in Begin/Commit/Abort (also when the store fails)", "every Begin(lock) site aborts/commits/hands over on all paths", "no blocking call while a critical lock may be held", "waiters observe the tomb"},
 		NotDecided:  []string{"promptness (time bounds)", "goroutine counts after shutdown", "panics inside third-party code", "nil txn arguments"},
@@ -167,7 +167,7 @@ func init() {
 	})
 	prop(&PropDef{
 		ID:          "C20",
-		Rules:       []string{"PANIC-1", "PANIC-2", "PANIC-3", "PANIC-4", "PANIC-5", "NUM-1", "NUM-2", "NUM-4", "LOCK-6", "IDX-8", "PANIC-6", "ERR-2", "PANIC-7", "NUM-6", "PANIC-8", "LOCK-4"},
+		Rules:       []string{"PANIC-1", "PANIC-2", "PANIC-3", "PANIC-4", "PANIC-5", "NUM-1", "NUM-2", "NUM-4", "LOCK-6", "IDX-8", "PANIC-6", "ERR-2", "PANIC-7", "NUM-6", "PANIC-8", "LOCK-4", "SIG-4"},
 		Explanation: "Enumerated panic sources, each decided for every site in non-test code: no comparison of two BSON-carrying interfaces; all unchecked type assertions discharged by tables, result types, dominating checks or listed invariants; every integer division by a variable is zero-guarded; every explicit panic is a documented argument guard or covered by a table; the index-tuple invariant (at least one tuple) holds; allocation sizes, appending-loop bounds and $slice arithmetic are not caller-controlled/overflowing; a panic inside a user callback cannot leak the writer token. Absence of ALL panics (nil dereference, index expressions outside these rules, third-party code) is NOT decided.",
 		Decided:     []string{"_id presence test before every Set.Add/Replace", "interface comparisons (526 sites)", "75 unchecked assertions", "division guards", "explicit panics classified", "allocation/loop bounds", "deferred abort around callbacks"},
 		NotDecided:  []string{"nil dereferences", "slice/index expressions outside NUM-2's sources", "panics in third-party code", "hangs other than unbounded allocation"},
@@ -178,7 +178,7 @@ func init() {
 func init() {
 	prop(&PropDef{
 		ID:          "C18",
-		Rules:       []string{"GFS-1", "GFS-2", "GFS-3", "GFS-4", "PANIC-3", "ERR-1", "GFS-5", "GFS-6", "GFS-7"},
+		Rules:       []string{"GFS-1", "GFS-2", "GFS-3", "GFS-4", "PANIC-3", "ERR-1", "GFS-5", "GFS-6", "GFS-7", "FLAG-5", "GFS-8"},
 		Explanation: "What a download returns for what was uploaded is a relation over runtime values (all byte strings x chunk sizes x write partitions x seek scripts) and is NOT decided. Decided is the bookkeeping that byte-exactness rests on and that is visible in the shape of bucket.go: every quantity of the upload and download paths is normalised to a linear form over receiver fields, parameters, loop variables and len(x), and the forms must be the ones the GridFS layout requires - chunk number, data window, loop step, the three counters, the remainder carry-over, where the file record takes length and chunk size from, the (chunk number, offset) split of a position, fetch order and number checks, how Read and Seek advance - plus the pairing 'file removed => chunks removed'.",
 		Decided:     []string{"chunk number = s.chunks + len(chunks); data = buffer[i:i+size]; size = min(bufLen-i, chunkSize); step = chunkSize; partial chunk only when final", "bufLen/chunks/length updates and remainder carry-over after a flush", "file record / marker take Length, ChunkSize, id from the stream's counters", "Resume accepts only chunks numbered 0,1,2,... and restores the counters from them", "seek: num = position/chunkSize, skip num, sort by n, files_id filter, number check, offset = position - num*chunkSize", "next: consecutive numbers; load: ceil(length/chunkSize)", "Read: EOF test, copy window, position/buffer/read advance by n; Seek: whence table and position stored after success", "Delete / Abort remove the chunks of the file on every successful path", "division by a chunk size only behind a positivity check (PANIC-3)"},
 		NotDecided:  []string{"that the bytes read equal the bytes written for any particular content, chunk size, write partition or seek script", "interaction with concurrent uploads / cleanup (markers)", "the 16 MiB buffer boundary behaviour beyond the carry-over identity", "Cleanup's age arithmetic"},
